@@ -115,7 +115,7 @@ class AppEnv:
     MEDIA = ('media', 'm3d!a')
     USER = ('user', 'pa55word')
 
-    def __init__(self, users: bool = True, fast_passwords: bool = True) -> None:
+    def __init__(self, users: bool = True, fast_passwords: bool = True, allowed_domains: str | None = '*') -> None:
         setup_paths()
         self.tmp = Path(tempfile.mkdtemp(prefix='dlv_app_'))
         self.blob_folder = self.tmp / 'media' / 'blobs'
@@ -126,7 +126,7 @@ class AppEnv:
         config = {
             'BLOB_FOLDER': str(self.blob_folder),
             'DASH': {
-                'ALLOWED_DOMAINS': '*',
+                **({'ALLOWED_DOMAINS': allowed_domains} if allowed_domains is not None else {}),
                 'CSRF_SECRET': 'test.csrf.secret',
                 'DEFAULT_ADMIN_USERNAME': self.ADMIN[0],
                 'DEFAULT_ADMIN_PASSWORD': self.ADMIN[1],
